@@ -141,7 +141,13 @@ VH_DRIVER(query){
       if((nb?6:3)*(sh.km+sh.vm)>2147){ char*out=(char*)0x1; int rcm=uriComposeQueryMallocExA(&out,&item,URI_TRUE,nb);
         bool textOK=false; if(rcm==URI_SUCCESS&&out&&out!=(char*)0x1){ /* an implementation that sizes the text exactly may succeed: then the text must be right */
           size_t kl=(size_t)sh.km*1000000u, vl=(size_t)sh.vm*1000000u, want=kl+(sh.v? 1+vl:0), n=strlen(out); textOK= n==want; for(size_t i=0;i<n&&textOK;++i) if(out[i]!=((sh.v&&i==kl)?'=':'a')) textOK=false; }
-        g.event(J().str("e","ComposeMallocGiant").num("km",sh.km).num("vm",sh.vm).boo("nb",nb).num("rc",rcm).boo("untouched",out==(char*)0x1||out==nullptr).boo("textOK",textOK).done()); if(rcm==URI_SUCCESS&&out&&out!=(char*)0x1) free(out); } } }
+        g.event(J().str("e","ComposeMallocGiant").num("km",sh.km).num("vm",sh.vm).boo("nb",nb).num("rc",rcm).boo("untouched",out==(char*)0x1||out==nullptr).boo("textOK",textOK).done()); if(rcm==URI_SUCCESS&&out&&out!=(char*)0x1) free(out); } }
+    // WRITING such a text into a destination of 64 characters (ending at a guard page): the space test must not wrap either - a key (or value)
+    // one character short of the per-string limit, behind a few characters already written
+    for(int nb=0;nb<2;++nb) for(int asval=0;asval<2;++asval){ size_t kl=(size_t)2147483647/(nb?6:3)-1; UriQueryListA i1,i2; i1.key="12345678"; i1.value= asval? e-kl : nullptr; i1.next= asval? nullptr : &i2; i2.key=e-kl; i2.value=nullptr; i2.next=nullptr;
+      char*d=(char*)ar.tail(64); memset(d,0xEE,64); int w=-9, rc=-9; g.set_case(J().str("driver","query/giant-write").num("nb",nb).num("asval",asval).done());
+      int fault=guarded_call([&]{ rc=uriComposeQueryExA(d,&i1,64,&w,URI_TRUE,nb?URI_TRUE:URI_FALSE); });
+      g.event(J().str("e","ComposeGiantWrite").boo("nb",nb).boo("asval",asval).num("cap",64).num("klm",(long long)(kl/1000000)).num("rc",rc).num("fault",fault).done()); } }
   // the INT_MAX boundary itself: lists whose exact worst-case size is INT_MAX-3 .. INT_MAX+3.  All keys point into ONE shared buffer of 2^20
   // characters (the measuring call only walks them), empty-key filler items (one '&' each) tune the total to the character; the last item comes
   // with and without a value.  Lengths are logged, TLC adds them up in base 2^20 (its integers are 32 bit).
